@@ -35,7 +35,7 @@ ENTRIES = {
          "property-based testing: before/after snapshot invariant"),
  "C10": ("Exploration: generated runs with 1x..3x populations plus offsets that no group count divides, all modes; size invariant over every generation.",
          "property-based testing: invariant over every recorded generation"),
- "C11": ("Exploration of schedules: the pool and as_completed seen by the library are replaced by a lazy executor whose completion order (and time-outs) are drawn by Hypothesis, with a multiset hand-off oracle; real thread/process pools with injected delays and stragglers; distinct-initial-points oracle. Interleavings of real pools are sampled, not enumerated.",
+ "C11": ("Exploration of schedules: every reference the library's modules hold to concurrent.futures (executor classes, as_completed, wait; found by identity) is replaced by a lazy executor whose completion order (and time-outs) are drawn by Hypothesis, with a multiset hand-off oracle; real thread/process pools with injected delays and stragglers; distinct-initial-points oracle. Interleavings of real pools are sampled, not enumerated.",
          "schedule-controlled property testing (harness-owned executor) + delay-injected real pools"),
  "C12": ("Exploration: metamorphic pairs run(max, f) / run(min, -f) with equal seeds for every optimizer outside the committed direction-reader list; positions equal and costs exact negatives generation by generation.",
          "property-based testing: metamorphic relation max f == min -f"),
